@@ -320,6 +320,7 @@ class Run:
                             t = tgt[j % len(tgt)]
                             zc.async_remove_listener(t)
                             t.registered = False
+                            t.removed_in_phase = ph
                     else:
                         nl = Spy(len(listeners))
                         listeners.append(nl)
@@ -479,7 +480,12 @@ class Run:
                 continue
             removed_during = not l.registered
             if removed_during:
-                continue   # a listener removed while the datagram is processed may or may not get the calls
+                # a listener removed while the datagram is processed may or may not get the calls of the phase it was removed in,
+                # but once the "before" phase is over a removed listener is no registered listener any more: no "after" call
+                if getattr(l, 'removed_in_phase', None) == 'first' and comps:
+                    self.fail('listener-called-after-removal', 'a listener removed during the first round of callbacks was still '
+                              'given the completion callback of that datagram', {'step': step, 'listener': l.idx})
+                continue
             det = {'step': step, 'listener': l.idx}
             if not pairs:
                 if len(ups) > 1 or len(comps) > 1 or any(c[2] for c in ups):
